@@ -1,1 +1,102 @@
+import GqlProofs.Lexer.Pos
+/-
+  C04 — every reported position is truthful (lexer part).
 
+  `Spec.posAt / lineOf / colOfOffset` (GqlModel/Lexer/Spec.lean) define line and column of an offset
+  by counting line terminators (LF, CR, CRLF once) over the prefix of the source.  The theorem says
+  that every token the model's `lexAll` returns carries exactly that line and column for its start
+  offset, and an extent inside the source.
+
+  Scope (why `_partial`): proved for sources whose bytes are all < 128, where byte offsets, rune
+  offsets and code-point offsets coincide (`Ascii`).  For sources with multi-byte characters the same
+  statement is checked by the exhaustive/random three-way run of ./check C04 (lex19 contains a two-byte
+  character and the BOM).  The `+ 1` for `String` tokens is the recorded known finding
+  `string-column-off-by-one` (pinned by the repository's own parser tests): the theorem states the
+  model's — and the code's — actual behaviour exactly, it does not hide it.
+
+  Full-strength statement, not yet proved:
+    theorem C04_token_pos (inp) (cps) (h : utf8Encode cps = inp ∧ all cps scalar values) :
+      ∀ t ∈ (lexAll inp).tokens, … = lineOf cps t.start ∧ … = colOfOffset cps t.start
+-/
+open Gql Gql.Lexer Gql.Lexer.Spec
+
+/-- what C04 requires of a token of source `inp` -/
+def TokenTruthful (inp : Bytes) (t : Token) : Prop :=
+  t.start ≤ t.stop ∧ t.stop ≤ inp.length ∧ t.line = lineOf inp t.start ∧
+    t.col = colOfOffset inp t.start + (if t.kind = .string then 1 else 0)
+
+theorem foldPos_off (s : PState) (l : List Nat) : (foldPos s l).off = s.off + l.length := by
+  induction l generalizing s with
+  | nil => simp
+  | cons b t ih =>
+    simp only [foldPos_cons, ih, List.length_cons]
+    unfold posStep
+    split
+    · split <;> simp <;> omega
+    · split <;> simp <;> omega
+
+theorem posAt_prefix (pre rest : Bytes) : posAt (pre ++ rest) pre.length = foldPos PState.init pre := by
+  simp [posAt, foldPos]
+
+theorem lexFuel_truthful (inp : Bytes) (hA : Ascii inp) (fuel : Nat) (pre rest : Bytes) (c : Cur)
+    (acc : List Token) (hsplit : inp = pre ++ rest) (hinv : Inv (foldPos PState.init pre) c rest)
+    (hacc : ∀ t ∈ acc, TokenTruthful inp t) :
+    ∀ t ∈ (lexFuel fuel rest c acc).tokens, TokenTruthful inp t := by
+  induction fuel generalizing pre rest c acc with
+  | zero => simpa [lexFuel, LexOut.tokens] using hacc
+  | succ n ih =>
+    have hAr : Ascii rest := by rw [hsplit] at hA; exact Ascii_append_right hA
+    have hp := readToken_pos rest c _ hAr hinv
+    unfold lexFuel
+    split
+    · simpa [LexOut.tokens] using hacc
+    · rename_i t rest' c' heq
+      rw [heq] at hp
+      obtain ⟨ign, x, e1, e2, e3, e4, e5, e6, e7⟩ := hp
+      have hoff : (foldPos (foldPos PState.init pre) ign).off = (pre ++ ign).length := by
+        rw [← foldPos_append, foldPos_off]; simp [PState.init]
+      have hpos : posAt inp (pre ++ ign).length = foldPos (foldPos PState.init pre) ign := by
+        have : inp = (pre ++ ign) ++ (x ++ rest') := by rw [hsplit, e1]; simp
+        rw [this, posAt_prefix, foldPos_append]
+      have ht : TokenTruthful inp t := by
+        refine ⟨e6, ?_, ?_, ?_⟩
+        · have : inp.length = pre.length + ign.length + x.length + rest'.length := by
+            rw [hsplit, e1]; simp; omega
+          rw [hoff] at e7; simp at e7; omega
+        · rw [e4, e3, hoff, lineOf, hpos]
+        · rw [e5, e3, hoff, colOfOffset, lineStartOf, hpos, colOf]
+      have hacc' : ∀ u ∈ t :: acc, TokenTruthful inp u := by
+        intro u hu
+        simp at hu
+        rcases hu with rfl | hu
+        · exact ht
+        · exact hacc u hu
+      split
+      · intro u hu
+        simp [LexOut.tokens] at hu
+        exact hacc' u (by simp; rcases hu with hu | hu <;> simp [hu])
+      · exact ih (pre ++ ign ++ x) rest' c' (t :: acc) (by rw [hsplit, e1]; simp)
+          (by rw [List.append_assoc, foldPos_append]; exact e2) hacc'
+
+/-- Every token of an ASCII source carries the line and column that the position specification
+    computes from the source text for the token's start offset, and its extent lies inside the
+    source (String tokens: column + 1, the recorded known finding). -/
+theorem C04_token_pos_ascii_partial (inp : Bytes) (hA : Ascii inp) :
+    ∀ t ∈ (lexAll inp).tokens, TokenTruthful inp t := by
+  have hinit : Inv (foldPos PState.init []) Cur.init inp := by
+    refine ⟨⟨rfl, rfl, rfl, rfl⟩, ?_⟩
+    simp [PState.init]
+  exact lexFuel_truthful inp hA _ [] inp Cur.init [] rfl hinit (by simp)
+
+/-- Corollary for everything except quoted strings: line and column are exactly the specified ones. -/
+theorem C04_token_pos_ascii_nonstring (inp : Bytes) (hA : Ascii inp) (t : Token)
+    (ht : t ∈ (lexAll inp).tokens) (hk : t.kind ≠ .string) :
+    t.line = lineOf inp t.start ∧ t.col = colOfOffset inp t.start := by
+  have := C04_token_pos_ascii_partial inp hA t ht
+  exact ⟨this.2.2.1, by simpa [hk] using this.2.2.2⟩
+
+-- the hypothesis is satisfiable and the statement is not vacuous
+example : Ascii (str "{ a }") := by
+  intro b hb
+  simp [str] at hb
+  omega
